@@ -44,13 +44,24 @@ def _find_func(tree, name, cls=None):
     raise ExtractionError(f"function {name} not found")
 
 
-def _events(fn) -> list[tuple[int, int, str]]:
-    """(line, column, name) of every call and raise in the body of `fn` (not in nested defs), in evaluation-ish = source order;
-    a call's arguments come before the call itself."""
+def _events(fn, inline_nested: bool = False, returns: bool = False, strict: bool = True) -> list[str]:
+    """name of every call and raise in the body of `fn` (not in nested defs), in evaluation-ish = source order;
+    a call's arguments come before the call itself.  `inline_nested`: the body of a nested `def` is listed where it is defined
+    (it cannot run earlier); `returns`: `return` statements are listed as "return"; `strict=False`: a call of something that is
+    not a dotted name is listed as "<expr>" instead of failing."""
     out = []
 
     def visit(node):
+        if isinstance(node, (ast.FunctionDef, ast.AsyncFunctionDef)) and inline_nested:
+            for stmt in node.body:
+                visit(stmt)
+            return
         if isinstance(node, (ast.FunctionDef, ast.AsyncFunctionDef, ast.Lambda, ast.ClassDef)):
+            return
+        if returns and isinstance(node, ast.Return):
+            if node.value is not None:
+                visit(node.value)
+            out.append("return")
             return
         if isinstance(node, ast.Call):
             for a in list(node.args) + [k.value for k in node.keywords]:
@@ -58,7 +69,9 @@ def _events(fn) -> list[tuple[int, int, str]]:
             visit(node.func) if not isinstance(node.func, (ast.Name, ast.Attribute)) else None
             name = _dotted(node.func)
             if name is None:
-                raise ExtractionError(f"call of a non-name at line {node.lineno}")
+                if strict:
+                    raise ExtractionError(f"call of a non-name at line {node.lineno}")
+                name = "<expr>"
             out.append(name)
             return
         if isinstance(node, ast.Raise):
@@ -83,8 +96,43 @@ def extract(repo: str) -> list[str]:
     return outer[:k] + inner + outer[k + 1:]
 
 
-def render(calls: list[str] | None, why: str = "") -> str:
-    head = ("/- GENERATED by harness/c12_extract.py from pipefunc/map/_prepare.py and pipefunc/map/_run_info.py of the repository under test.\n"
+# round 2: the constructors and the head of `run_map` (name in Generated, file, class, function, options)
+EXTRA = [
+    ("runMapCalls", "pipefunc/map/_run.py", None, "run_map", {}),
+    ("runMapAsyncCalls", "pipefunc/map/_run.py", None, "run_map_async", {"inline_nested": True}),
+    ("pipelineInitCalls", "pipefunc/_pipeline/_base.py", "Pipeline", "__init__", {"returns": True}),
+    ("pipelineAddCalls", "pipefunc/_pipeline/_base.py", "Pipeline", "add", {"returns": True}),
+    ("pipelineValidateCalls", "pipefunc/_pipeline/_base.py", "Pipeline", "_validate", {"returns": True}),
+    ("pipelineValidateMapspecCalls", "pipefunc/_pipeline/_base.py", "Pipeline", "_validate_mapspec", {"returns": True}),
+    ("pipeFuncInitCalls", "pipefunc/_pipefunc.py", "PipeFunc", "__init__", {"returns": True}),
+    ("pipeFuncValidateCalls", "pipefunc/_pipefunc.py", "PipeFunc", "_validate", {"returns": True}),
+]
+
+
+def extract_extra(repo: str) -> dict[str, tuple[list[str] | None, str]]:
+    """name ↦ (calls or None, why): one list per function of `EXTRA`; a function that cannot be extracted gives None (broken tie)"""
+    out = {}
+    trees = {}
+    for name, rel, cls, fn, opts in EXTRA:
+        try:
+            if rel not in trees:
+                trees[rel] = ast.parse((Path(repo) / rel).read_text())
+            out[name] = (_events(_find_func(trees[rel], fn, cls), **opts), "")
+        except (ExtractionError, OSError, SyntaxError) as e:
+            out[name] = (None, f"{type(e).__name__}: {e}")
+    return out
+
+
+def _render_list(name: str, doc: str, calls: list[str] | None, why: str) -> str:
+    if calls is None:
+        return f"/-- extraction failed: {why} -/\ndef {name} : List String := []\n"
+    items = ",\n   ".join('"' + c.replace('"', "") + '"' for c in calls)
+    return f"/-- {doc} -/\ndef {name} : List String :=\n  [{items}]\n"
+
+
+def render(calls: list[str] | None, why: str = "", extra: dict | None = None) -> str:
+    head = ("/- GENERATED by harness/c12_extract.py from pipefunc/map/_prepare.py, _run_info.py, _run.py, pipefunc/_pipeline/_base.py and\n"
+            "   pipefunc/_pipefunc.py of the repository under test.\n"
             "   Do not edit: it is rewritten on every `./check C12`. -/\n"
             "namespace PF.Generated\n\n")
     if calls is None:
@@ -94,6 +142,9 @@ def render(calls: list[str] | None, why: str = "") -> str:
         items = ",\n   ".join('"' + c.replace('"', "") + '"' for c in calls)
         body = ("/-- calls and `raise`s of `prepare_run`, `RunInfo.create` inlined, in source order -/\n"
                 f"def prepareRunCalls : List String :=\n  [{items}]\n")
+    for name, rel, cls, fn, _ in EXTRA:
+        c, w = (extra or {}).get(name, (None, "not extracted"))
+        body += "\n" + _render_list(name, f"calls, `raise`s and `return`s of `{(cls + '.') if cls else ''}{fn}` ({rel}), in source order", c, w)
     return head + body + "\nend PF.Generated\n"
 
 
@@ -103,11 +154,13 @@ def write(repo: str | None = None) -> tuple[bool, str]:
         calls, why = extract(repo), ""
     except (ExtractionError, OSError, SyntaxError) as e:
         calls, why = None, f"{type(e).__name__}: {e}"
-    text = render(calls, why)
+    extra = extract_extra(repo)
+    bad = [f"{n}: {w}" for n, (c, w) in extra.items() if c is None]
+    text = render(calls, why, extra)
     OUT.parent.mkdir(parents=True, exist_ok=True)
     if not OUT.exists() or OUT.read_text() != text:         # keep the mtime when nothing changed: no needless rebuild
         OUT.write_text(text)
-    return calls is not None, why or ", ".join(calls or [])
+    return calls is not None and not bad, "; ".join(([why] if why else []) + bad) or ", ".join(calls or [])
 
 
 if __name__ == "__main__":
